@@ -110,9 +110,6 @@ def parseOp (ws : List String) : Option Op :=
     pure (.convertDenom (← g.toNat?) (← u.toNat?) (← r.toNat?) (← n.toNat?) (← parseDen a) (← parseDen b))
   | _ => none
 
-/-- contracts of the harness are accounts `U (3 + j)` -/
-def nContracts : Nat := 16
-
 def showBeh : Option Beh → String
   | none => "-"
   | some .keep => "keep"
@@ -125,9 +122,13 @@ def showClaim : Claim → String
   | .result n ok => s!"res:{n}:{if ok then 1 else 0}"
 
 def showState2 (s : State2) : String :=
-  let contracts := (List.range nContracts).flatMap fun j => allAssets.filterMap fun (sn, as) =>
-    let v := s.base.L.bal as (Addr.user (nUsers + j))
-    if v == 0 then none else some s!"u{nUsers + j}.{sn}={v}"
+  -- contracts that were ever the target of an observed bridge call (the others hold nothing)
+  let used := (s.seen.filterMap fun e => match e.2.2 with
+    | .call to _ (some _) => some to
+    | _ => none).eraseDups.mergeSort (· ≤ ·)
+  let contracts := used.flatMap fun u => allAssets.filterMap fun (sn, as) =>
+    let v := s.base.L.bal as (Addr.user u)
+    if v == 0 then none else some s!"u{u}.{sn}={v}"
   let pend := (List.range nChains).flatMap fun c =>
     ((s.pend c).mergeSort (fun a b => a.nonce ≤ b.nonce)).map fun p => s!"q{c}.{p.nonce}={showClaim p.claim}"
   " ".intercalate ([showState s.base] ++ contracts ++ pend |>.filter (· != ""))
